@@ -101,9 +101,25 @@ def _repr_stub(obj):
 FLAGS["stub_str_repr"] = False
 _cc._PATCH_REGISTRATIONS[repr] = _repr_stub
 
+# --- A2.5 CrossHair 0.0.110's `bytes` patch rejects keyword arguments (hdl21.params: bytes(s, encoding="utf-8"))
+_bytes = _cc._PATCH_REGISTRATIONS[bytes]
+
+
+def _bytes_kw(*a, **kw):
+    if kw:
+        from crosshair.core import realize as _realize
+        args = [_realize(x) for x in a]
+        with NoTracing():
+            return bytes(*args, **kw)
+    return _bytes(*a)
+
+
+_cc._PATCH_REGISTRATIONS[bytes] = _bytes_kw
+
 STUBS = [
     "pydantic dataclass validation replaced by stdlib dataclasses for hdl21.signal/slice/portref/noconn/role/props/elab.* (inputs assumed well-typed)",
     "CrossHair short-circuiting of contracted builtins disabled",
     "ShellMutableMap.copy/__copy__ repaired (CrossHair 0.0.110 bug)",
+    "bytes(x, encoding=...) realises x (CrossHair's bytes patch takes no keywords)",
     "f-string formatting of hdl21 objects and bare containers returns '<TypeName>' (error text not observed symbolically)",
 ]
